@@ -184,6 +184,12 @@ RECIPES = {
         'synnot_a1': dict(kind='audio', timescale=1000, track_id=2, durations=(2000, 2000, 2000, 1990),
                           tfdt=None, file_id=6),
     },
+    # strongly irregular durations (quarter/half-segment rounding of time lookups picks a neighbour)
+    'synwild': {
+        'synwild_v1': dict(kind='video', timescale=1000, durations=(1000, 4000, 1000, 4000, 1000), file_id=9),
+        'synwild_a1': dict(kind='audio', timescale=48000, track_id=2, file_id=10,
+                           durations=(48000, 192000, 48000, 192000, 47000)),
+    },
     # encrypted variants: 16-byte IV with sub-samples (video), 8-byte IV without (audio), + clear twins
     'synenc': {
         'synenc_v1': dict(kind='video', timescale=1000, durations=(2000, 3000, 2000), file_id=7),
